@@ -38,6 +38,7 @@ func NewEngine(p *Program) *Engine {
 func (e *Engine) id() int { e.nextID++; return e.nextID }
 
 type state struct {
+	exhausted map[string]bool // buffers on which a read has already failed or come back short: they are empty now
 	events  []*Event
 	conds   []Cond
 	facts   map[string]bool
@@ -58,6 +59,12 @@ func (s *state) clone() *state {
 		mem:     make(map[string]memEntry, len(s.mem)),
 		content: make(map[string]*Val, len(s.content)),
 		allocT:  make(map[int]types.Type, len(s.allocT)),
+	}
+	if len(s.exhausted) > 0 {
+		n.exhausted = make(map[string]bool, len(s.exhausted))
+		for k, v := range s.exhausted {
+			n.exhausted[k] = v
+		}
 	}
 	for k, v := range s.facts {
 		n.facts[k] = v
@@ -374,6 +381,11 @@ func (e *Engine) contentOf(st *state, v *Val) *Val {
 		return v
 	case "slice":
 		base := v.Args[0]
+		if base.Op == "alloc" && v.Args[1] == nil && v.Args[2] == nil {
+			if c, ok := st.content[base.Key()]; ok {
+				return c
+			}
+		}
 		if base.Op == "alloc" { // slice of a local array: collect elements
 			if at, ok := st.allocT[base.ID]; ok {
 				if arr, ok := at.Underlying().(*types.Array); ok && arr.Len() <= 16 && v.Args[1] == nil && v.Args[2] == nil {
